@@ -23,6 +23,9 @@ run(ctx)
       clause judged in each unit; add_circles with list / ndarray (caller-owned, checked unmodified) / tuple / mixed arguments,
       one call per circle on the same long-lived region with a query in between, and REPEATED bit-identical centres with
       different radii in every order.
+  3a. polygons straddling RA = 0 (4-8 vertices, circumcentre exactly on RA 0 at several decs) and centred exactly on both poles,
+      regular and irregular, both vertex orders; add_poly raising on a polygon that healpy accepts with the model's arguments
+      is a Spec failure (no region containing the interior is built).
   3b. adversarial pixel geometry: per depth the most elongated pixels are found with hp.boundaries (corner-to-centre
      distance / nside2resol, up to 1.0446); sub-pixel discs are centred in the outer 0.05-4.5 % of their long diagonal, and
      larger discs are placed so that only that tip is inside; also around base-pixel corners and the |z| = 2/3 transition.
@@ -693,8 +696,9 @@ def run_poly_case(ctx, case, pts, spec_only=False):
         err = None
     except AssertionError:
         err = 'assertion'
-    except RuntimeError as e:   # healpy rejects (degenerate / not convex): not this property's business
+    except RuntimeError as e:   # healpy rejects (degenerate / not convex): judged after the model's arguments are known
         err = 'healpy:' + type(e).__name__
+        err_text = f'{type(e).__name__}: {e}'
     except Exception as e:
         ctx.case(case_pub(case), ('raise', case['id']))
         ctx.fail('spec', dict(case, observe='add_poly'), f'add_poly raised {type(e).__name__}: {e} on a valid convex polygon',
@@ -720,7 +724,26 @@ def run_poly_case(ctx, case, pts, spec_only=False):
             ctx.fail('corr', case, f'add_poly outcome {err or "ok"}, model {lp[:30]}', dict(sig_base, what='poly-guard'))
         return
     if err:
-        ctx.count('poly-rejected-by-' + err)
+        # add_poly raised inside healpy.  Is this exact input valid for healpy when handed over as the model says
+        # (same vertices, same order)?  If yes, the code failed to build a region for a valid convex polygon: the
+        # property ("contains every interior position") is violated.  If healpy rejects the model's arguments too,
+        # the input is outside the property (degenerate / not convex for healpy) and is only counted.
+        w = lp.split()
+        verts0 = np.array(parse_floats(w[4:])).reshape(-1, 3)
+        try:
+            hp.query_polygon(int(w[1]), verts0, inclusive=(w[2] == '1'), nest=(w[3] == '1'))
+            accepted = True
+        except Exception:
+            accepted = False
+        if accepted:
+            ctx.case(case_pub(case), ('raise', case['id']))
+            ctx.fail('spec', dict(case, observe='add_poly'),
+                     f'add_poly raised {err_text} on a convex polygon that healpy.query_polygon accepts with the vertices in the order given '
+                     f'({len(case["positions"])} vertices, circumcentre ra={case["circum"][0]!r} dec={case["circum"][1]!r}, R={case["circum"][2]!r}): '
+                     f'no region containing the interior is built',
+                     dict(sig_base, what='raises', stage='add_poly', error='RuntimeError'))
+        else:
+            ctx.count('poly-rejected-by-' + err + ' (model arguments rejected too)')
         return
     k = 1
     lws = []
@@ -1213,6 +1236,41 @@ def circle_gen(ctx, k, budget, n_each, spec_only=False):
     return case, run_circle_case(ctx, case, pts, spec_only)
 
 
+def wrap_poly_cases(ctx, thorough):
+    """regular and irregular convex 4..8-gons whose circumcentre is exactly on RA = 0 (vertices on both sides of the wrap,
+    RA given in [0, 2pi)) at several declinations, and exactly on dec = +-90, in both vertex orders"""
+    rng = ctx.rng
+    out = []
+    decs = [0.0, math.radians(-43.4), math.radians(60), math.radians(-80)] + ([math.radians(20), math.radians(85)] if thorough else [])
+    centres = [(0.0, d) for d in decs] + [(0.0, HALF_PI), (0.0, -HALF_PI), (rng.uniform(0, TWO_PI), HALF_PI), (rng.uniform(0, TWO_PI), -HALF_PI)]
+    k = 0
+    for rac, decc in centres:
+        for nv in ((4, 5, 7) if not thorough else (4, 5, 6, 7, 8)):
+            for regular in (True, False):
+                for rev in (False, True):
+                    depth = 4 + k % 5
+                    R = math.radians([0.6, 3.0, 12.0][k % 3])
+                    if regular:
+                        psi = [(i + 0.13) * TWO_PI / nv for i in range(nv)]
+                    else:
+                        while True:
+                            psi = sorted(rng.uniform(0, TWO_PI) for _ in range(nv))
+                            gaps = [(psi[(i + 1) % nv] - psi[i]) % TWO_PI for i in range(nv)]
+                            if min(gaps) > 0.3 and max(gaps) < math.pi - 0.2:
+                                break
+                    if rev:
+                        psi = psi[::-1]
+                    c = unit(rac, decc)
+                    e, n = tangent_frame(c)
+                    pos = [vec2radec(math.cos(R) * c + math.sin(R) * (math.cos(p) * e + math.sin(p) * n)) for p in psi]
+                    case = dict(kind='polygon', id=f'pw{k}', maxdepth=depth, depth=depth, deff=depth, positions=[list(p) for p in pos],
+                                circum=[rac, decc, R], centre_class='ra0-straddle' if abs(decc) < HALF_PI else 'pole-centred')
+                    pts = gen_points_poly(rng, [tuple(p) for p in case['positions']], rac, decc, R, pix_size(depth), 3)
+                    out.append((case, pts))
+                    k += 1
+    return out
+
+
 def poly_gen(ctx, k, budget, n_each, spec_only=False):
     case = make_poly_case(ctx, k, budget)
     pts = gen_points_poly(ctx.rng, [tuple(p) for p in case['positions']], *case['circum'], pix_size(case['deff']), n_each)
@@ -1239,6 +1297,14 @@ def run(ctx):
     for k0 in range(0, npoly, CHUNK):
         drive(ctx, [poly_gen(ctx, k + 10 * ctx.seed, budget, n_each)[1] for k in range(k0, min(npoly, k0 + CHUNK))])
     run_tip_cases(ctx, range(3, 9) if quick else range(3, 13), 2 if quick else 5, thorough=not quick)
+    wp = wrap_poly_cases(ctx, thorough=not quick)
+    for k0 in range(0, len(wp), 4 * CHUNK):
+        gens = []
+        for case, pts in wp[k0:k0 + 4 * CHUNK]:
+            ctx.count('polygon centre ' + case['centre_class'])
+            ctx.count(f"polygon vertices {len(case['positions'])}")
+            gens.append(run_poly_case(ctx, case, pts))
+        drive(ctx, gens)
     drive(ctx, [run_poly_case(ctx, c, []) for c in malformed_cases()])
     # a Spec failure found on a composite case: put its minimised form (one circle, scalar call, one position) first
     for f in list(ctx.failures):
